@@ -28,6 +28,7 @@ RULE = (
     "limits (own capacity table), decimal digits, text length. A case is one (dialect, CID); it is non-trivial "
     "when an Integer limit lies within 2 of a type boundary or is negative, or when a name is a keyword; distinct by "
     "hash of (dialect, table, rows)."
+    "Data formats Delimited / Fixed / Excel / ODS. The same fields (text-like ones with an empty value of their own) and checks are added by program (add_field_format / add_check): names, quoting, types and nullability must be those of the CID read from rows."
 )
 ASSUMPTIONS = [
     "the keyword set of a dialect is the union of the words recorded in vlib/sql_keywords.json (taken from the "
